@@ -103,6 +103,12 @@ def run(R):
             # tterm: call term to try_format
             unit = const_val(tterm[2][1])
             clo = strip_refs(tterm[2][2])
+            while clo and clo[0] == 'cast' and len(clo) > 2:
+                clo = strip_refs(clo[2])
+            if clo and clo[0] == 'fnitem' and str(clo[1]).rsplit('::', 1)[-1] in WRITER_NANOS and 'Duration' in str(clo[1]):
+                # the accessor itself instead of |d| d.as_nanos(): no cast in between, full width
+                fn_ = str(clo[1]).rsplit('::', 1)[-1]
+                return unit, fn_, 1, body
             if clo[0] != 'agg' or 'def' not in clo[1]:
                 raise CheckError('UNRECOGNISED: try_format conversion argument is not a closure: %s' % show(clo))
             cl = tonic.body(clo[1]['def'])
@@ -250,6 +256,19 @@ def run(R):
                 nones = [bb for bb, i, p, a, ops in mirlib.aggregates(tf, 'option::Option', 'None') if p['l'] == 0]
                 okg = bool(true_t) and all(any(n in tf.reachable(tt) and tf.dominates(tt, n) for tt in true_t) for n in nones) and bool(nones)
                 R.check(okg, 'C09.R1', 'guard-8-digits', site(tf, s), 'value > %d -> None (test %s)' % (sp['max_value'], show(o)))
+        if not okg and not loop_form and not struct_form and not table_form:
+            # (value <= MAX).then(|| format!(..)): bool::then yields Some exactly when the comparison holds (std semantics)
+            for bb_, t_ in tf.calls(name='then'):
+                if 'bool' not in (t_.get('fn') or ''):
+                    continue
+                o = mirlib.norm_cmp(strip_refs(tf.origin(t_['args'][0])))
+                lhs = strip_refs(o[3]) if o[0] == 'bin' and o[1] == 'Ge' else None
+                while lhs and (is_call(lhs, name='into') or (lhs[0] == 'cast' and INT_WIDTH.get(lhs[3], 0) >= 64)):
+                    lhs = strip_refs(lhs[2][0] if lhs[0] == 'call' else lhs[2])
+                rt_ = mirlib.returned_terms(tf)
+                if o[0] == 'bin' and o[1] == 'Ge' and const_value(tonic, o[2]) == sp['max_value'] and is_call(lhs, name='call_once') and len(rt_) == 1 and is_call(strip_refs(rt_[0][1]), name='then'):
+                    okg = True
+                    R.ok('C09.R1', 'guard-8-digits', site(tf, bb_), '(value <= %d).then(..): Some only within 8 digits' % sp['max_value'])
         R.check(okg, 'C09.R1', 'guard-present', site(tf), 'try_format compares the converted value with %d using >' % sp['max_value'])
 
     # ---------------------------------------------------------------- R2 reader table
@@ -386,7 +405,17 @@ def run(R):
         mentions_parse = lambda t_: term_contains(t_, lambda x: is_call(x, name='try_parse_grpc_timeout'))
         # the locally configured timeout: the Option<Duration> field of GrpcTimeout (by type, not by name)
         gadt = tonic.adt('grpc_timeout::GrpcTimeout')
-        sfields = [f_['n'] for f_ in gadt['variants'][0]['fields'] if re.search(r'Option<(std::time::|core::time::)?Duration>$', f_['ty'])]
+        is_od = lambda ty_: re.search(r'Option<(std::time::|core::time::)?Duration>$', ty_) is not None
+        sfields = [f_['n'] for f_ in gadt['variants'][0]['fields'] if is_od(f_['ty'])]
+        if not sfields:
+            # bundled in a policy struct of this crate: its Option<Duration> members, minus dormant ones (always None today)
+            for f_ in gadt['variants'][0]['fields']:
+                try:
+                    sub_ = tonic.adt(re.sub(r'<.*$', '', f_['ty']))
+                except CheckError:
+                    continue
+                if sub_.get('kind') == 'struct':
+                    sfields += [g_['n'] for g_ in sub_['variants'][0]['fields'] if is_od(g_['ty']) and tonic.const_fields().get(g_['n']) != 'None']
         if len(sfields) != 1:
             raise CheckError('UNRECOGNISED: GrpcTimeout has %d Option<Duration> fields' % len(sfields))
         mentions_server = lambda t_: mentions_field(t_, sfields[0])
@@ -579,7 +608,7 @@ def run(R):
         rp = tonic.body(re.compile(r'recover_error::ResponseFuture<F> as .*Future>::poll$'))
         R.saw(rp)
         tr = rp.calls(pat='Status::try_from_error')
-        ih = rp.calls(pat='Status::into_http')
+        ih = status_response_sites(tonic, rp)
         R.check(len(tr) >= 1 and len(ih) >= 1, 'C09.R6', 'recover-error', site(rp), 'try_from_error sites %d, into_http sites %d' % (len(tr), len(ih)))
         for bb, t in ih:
             R.check(mentions_call(rp.origin(t['args'][0]), name='try_from_error'), 'C09.R6', 'recover-same-status', site(rp, bb), 'into_http receiver = %s' % show(rp.origin(t['args'][0]))[:160])
